@@ -48,6 +48,12 @@ type capReg struct {
 	ports     []messaging.Port
 	others    []naming.Named
 
+	// inv (with keepInv): every registered entity in registration order, the
+	// engine and the process-wide ID generator first - the inventory that
+	// simulation.Simulation keeps and walks in SaveCheckpoint/LoadCheckpoint.
+	keepInv bool
+	inv     []naming.Named
+
 	sim *simulation.Simulation
 	// plain: components are handed to the simulation behind a wrapper that
 	// exposes only Name/SaveCheckpoint/LoadCheckpoint, so the simulation does
@@ -58,6 +64,19 @@ type capReg struct {
 func newCapReg() *capReg {
 	return &capReg{engine: timing.NewSerialEngine()}
 }
+
+// newInvReg: a bare serial engine plus the entity inventory (call it after
+// timing.ResetIDGenerator so that the live generator is listed).
+func newInvReg() *capReg {
+	r := newCapReg()
+	r.keepInv = true
+	r.inv = append(r.inv, r.engine, timing.GetIDGenerator().(naming.Named))
+	return r
+}
+
+// registers reports whether the harness' own devices and their ports are to
+// be registered (they are part of a checkpoint inventory then).
+func (r *capReg) registers() bool { return r.sim != nil || r.keepInv }
 
 // newSimReg wraps a simulation (serial engine).
 func newSimReg(sim *simulation.Simulation, plain bool) *capReg {
@@ -91,6 +110,9 @@ func (r *capReg) RegisterComponent(c naming.Named) {
 	default:
 		r.others = append(r.others, c)
 	}
+	if r.keepInv {
+		r.inv = append(r.inv, c)
+	}
 	if r.sim != nil {
 		if _, ok := c.(checkpointable); ok && r.plain {
 			r.sim.RegisterComponent(plainEntity{inner: c})
@@ -102,6 +124,9 @@ func (r *capReg) RegisterComponent(c naming.Named) {
 
 func (r *capReg) RegisterConnection(c naming.Named) {
 	r.conns = append(r.conns, c)
+	if r.keepInv {
+		r.inv = append(r.inv, c)
+	}
 	if r.sim != nil {
 		r.sim.RegisterConnection(c)
 	}
@@ -109,6 +134,9 @@ func (r *capReg) RegisterConnection(c naming.Named) {
 
 func (r *capReg) RegisterResource(c naming.Named) {
 	r.others = append(r.others, c)
+	if r.keepInv {
+		r.inv = append(r.inv, c)
+	}
 	if r.sim != nil {
 		r.sim.RegisterResource(c)
 	}
@@ -117,6 +145,9 @@ func (r *capReg) RegisterResource(c naming.Named) {
 func (r *capReg) RegisterPort(p naming.Named) {
 	if port, ok := p.(messaging.Port); ok {
 		r.ports = append(r.ports, port)
+	}
+	if r.keepInv {
+		r.inv = append(r.inv, p)
 	}
 	if r.sim != nil {
 		r.sim.RegisterPort(p)
@@ -204,13 +235,13 @@ func buildAgent(reg modeling.Registrar, name string, sp agentSpec, netFreq timin
 	a.Component = modeling.NewBuilder[agentSpec, agentState, modeling.None]().
 		WithEngine(reg.GetEngine()).WithFreq(f).WithSpec(sp).Build(name)
 	a.AddMiddleware(&agentMW{a: a})
-	if cr, isCap := reg.(*capReg); !isCap || cr.sim != nil {
+	if cr, isCap := reg.(*capReg); !isCap || cr.registers() {
 		reg.RegisterComponent(a)
 	}
 	for j := 0; j < sp.NPorts; j++ {
 		p := messaging.NewPort(a, sp.BufSize, sp.BufSize, fmt.Sprintf("%s.Port[%d]", name, j))
 		a.ports = append(a.ports, p)
-		if cr, isCap := reg.(*capReg); !isCap || cr.sim != nil {
+		if cr, isCap := reg.(*capReg); !isCap || cr.registers() {
 			reg.RegisterPort(p)
 		}
 	}
